@@ -369,7 +369,16 @@ func (C11) Generate(c *Ctx, r *Rand, index int) *Scenario {
 	}
 	if fi.Name == "yaml" && c.W.Strace != "" && rs.Chance(1, 20) {
 		// split output into files while the process runs out of descriptors (EMFILE from some open on)
-		argv = append([]string{"-s=.id"}, argv...)
+		// (hooks are inert in these runs, so there is no address-space guard either: the expression is kept to
+		// ones that cannot reach the known padding defect of huge indices)
+		simple := Pick(rs, []string{".", ".a", ".. | select(kind == \"scalar\")", ".e[]", "[.d]", ".c", "del(.a)", ".id"})
+		argv = []string{"-s=.id", "-p=yaml", "--expression=" + simple, name}
+		sc.Meta["keep_flags"] = []any{"-p=yaml", "--expression=" + simple}
+		for i := len(sc.Files) - 1; i >= 0; i-- {
+			if sc.Files[i].Name == "expr.yq" {
+				sc.Files = append(sc.Files[:i], sc.Files[i+1:]...)
+			}
+		}
 		sc.Strace = "openat:error=EMFILE:when=" + strconv.Itoa(Pick(rs, []int{3, 4, 5, 6, 7, 7, 7, 8, 9, 11, 14})) + "+" // the first create is the 7th open of a run (3rd of its thread)
 		sc.NoHooks = true // the hook layer opens files of its own
 		sc.Plan = Plan{}
